@@ -1,0 +1,45 @@
+//go:build verif
+// +build verif
+
+package zap
+
+// Verification hooks, compiled in only with `-tags verif`. They let an
+// external deterministic simulator (a) park the calling goroutine inside
+// check-then-act windows that are never under a lock, (b) observe which
+// scratch object a sync.Pool hands out / takes back, and (c) read the
+// reference count of a Segment. All hooks are nil by default, so a verif
+// build without a simulator attached behaves like the normal build.
+
+// VerifYield is called at interleaving points; never while a zapx lock is held.
+var VerifYield func(site string)
+
+// VerifPoolGet / VerifPoolPut are called right after an object was obtained
+// from, respectively right before it is returned to, one of the package's
+// sync.Pools.
+var VerifPoolGet func(pool string, obj interface{})
+var VerifPoolPut func(pool string, obj interface{})
+
+func verifYield(site string) {
+	if f := VerifYield; f != nil {
+		f(site)
+	}
+}
+
+func verifPoolGet(pool string, obj interface{}) {
+	if f := VerifPoolGet; f != nil {
+		f(pool, obj)
+	}
+}
+
+func verifPoolPut(pool string, obj interface{}) {
+	if f := VerifPoolPut; f != nil {
+		f(pool, obj)
+	}
+}
+
+// VerifSegmentRefs returns the current reference count of a persisted segment.
+func VerifSegmentRefs(s *Segment) int64 {
+	s.m.Lock()
+	defer s.m.Unlock()
+	return s.refs
+}
